@@ -86,6 +86,9 @@ func c18ThreadBody(spec string, sharedCat *impl.Built, out *string) func() {
 	}
 }
 
+// c18Dependency: pools first used by a function of this module belong to the dependency (known finding).
+const c18Dependency = "github.com/jsightapi/jsight-schema-core"
+
 func c18Run(sc c18Scenario, prefix []int, shared map[uintptr]bool, fresh bool, record bool) (x c18Exec) {
 	vsync.ResetPools()
 	var cat *impl.Built
@@ -94,6 +97,10 @@ func c18Run(sc c18Scenario, prefix []int, shared map[uintptr]bool, fresh bool, r
 	}
 	x.results = make([]string, len(sc.Threads))
 	s := &vsync.Sched{Prefix: prefix, Shared: shared, FreshPools: fresh, Touched: map[uintptr]uint32{}, OnlyOnce: c18OnlyOnce}
+	if fresh {
+		// only the dependency's pools hand out fresh objects: a divergence that disappears is the dependency's defect
+		s.FreshOwner = c18Dependency
+	}
 	var fns []func()
 	for i, t := range sc.Threads {
 		fns = append(fns, c18ThreadBody(t, cat, &x.results[i]))
@@ -275,7 +282,7 @@ func workC18(w *run.W) {
 	}
 	if w.Shard == 0 {
 		w.Sample(map[string]any{"scenario": c18Scenarios[3].Name, "threads": c18Scenarios[3].Threads, "document": c18Docs["A"], "schedule_example": "thread 0 preempted after RWMutex.RLock #12, thread 1 runs to completion"})
-		w.Emit("pools", map[string]any{"pools": vsync.PoolCount()})
+		w.Emit("pools", map[string]any{"pools": vsync.PoolCount(), "owners": vsync.PoolOwners()})
 	}
 }
 
@@ -327,8 +334,10 @@ func workC18Race(w *run.W) {
 	if !w.Begin("race-pass") {
 		return
 	}
+	var p c18RaceParams
+	json.Unmarshal(w.Params, &p)
 	docs := []string{"A", "B", "C"}
-	for round := 0; round < 30; round++ {
+	for round := 0; round < p.Rounds; round++ {
 		var wg sync.WaitGroup
 		for g := 0; g < 16; g++ {
 			wg.Add(1)
@@ -353,8 +362,88 @@ func workC18Race(w *run.W) {
 		}
 		w.Touch()
 	}
-	w.Count("race_rounds", 30)
+	w.Count("race_rounds", int64(p.Rounds))
+	// wide pass: every project of the list is built and serialised by four goroutines at the same time (each walks the
+	// list from another offset, so every pair of code paths meets without a happens-before edge), then one catalog of
+	// every project is serialised by three goroutines.
+	projs := c18RaceProjects(p.CorpusStride)
+	var wg sync.WaitGroup
+	const G = 4
+	for g := 0; g < G; g++ {
+		wg.Add(1)
+		go func(g int) {
+			defer wg.Done()
+			for k := range projs {
+				pr := projs[(k+g*len(projs)/G)%len(projs)]
+				b := pr()
+				if b.OK() {
+					for _, op := range []byte("JOIP") {
+						impl.Access(&b.J, op)
+					}
+				}
+				if g == 0 {
+					w.Touch()
+				}
+			}
+		}(g)
+	}
+	wg.Wait()
+	for _, pr := range projs {
+		b := pr()
+		if !b.OK() {
+			continue
+		}
+		for _, ops := range []string{"JOIP", "OJPI", "IPJO"} {
+			wg.Add(1)
+			go func(ops string) {
+				defer wg.Done()
+				for i := 0; i < len(ops); i++ {
+					impl.Access(&b.J, ops[i])
+				}
+			}(ops)
+		}
+		wg.Wait()
+		w.Touch()
+	}
+	w.Count("race_wide_projects", int64(len(projs)))
 	w.End()
+}
+
+type c18RaceParams struct {
+	Rounds       int `json:"rounds"`
+	CorpusStride int `json:"corpus_stride"`
+}
+
+// c18RaceProjects: the hand-written projects of C06/C16/C18, documents with every annotation / description / comment
+// form, and every stride-th corpus file.
+func c18RaceProjects(stride int) []func() *impl.Built {
+	var out []func() *impl.Built
+	add := func(txt string) {
+		out = append(out, func() *impl.Built { return impl.BuildMem("root.jst", txt) })
+	}
+	for _, k := range []string{"A", "B", "C", "D"} {
+		add(c18Docs[k])
+	}
+	for _, p := range c16Projects {
+		add(p.Text)
+	}
+	for _, p := range c06Projects {
+		add(p.Text)
+	}
+	for _, d := range c01InjectDocs {
+		add(d)
+	}
+	add("JSIGHT 0.3\nINFO\n  Title \"a  b\"\n  Description\n    two   words\n\tand a tab\nSERVER @s /* multi\n   line\tannotation  here */\n  BaseUrl \"https://x\"\nTAG @t //  doubled  spaces\t\ttabs\n  Description\n    t\nGET /a/{id} /* x\n y */\n  Tags @t\n  Path\n  {\"id\": 1 // note   with   spaces\n  }\n  200 any //\ttab\n  404 empty /* a\n\n  b */\n")
+	add("JSIGHT 0.3\nURL /r //  rpc  \n  Protocol json-rpc-2.0\n  Method m /* multi\n line */\n    Params\n    {\"a\": 1} // n  n\n    Result any\nTYPE @t /* t\tt */\n{\"k\": \"v\" /* inner\n   note */\n}\nENUM @e //  e  e\n[1, // one  one\n 2]\n")
+	if stride > 0 {
+		for i, f := range corpusFiles() {
+			if i%stride == 0 {
+				f := f
+				out = append(out, func() *impl.Built { return impl.BuildDisk(f) })
+			}
+		}
+	}
+	return out
 }
 
 func runC18(c *chk.Ctx) {
@@ -370,6 +459,11 @@ func runC18(c *chk.Ctx) {
 	pool.Exe = exe
 	r := pool.Run("c18", p)
 	c.Merge(r, "executions")
+	if e := r.Emitted["pools"]; len(e) > 0 {
+		var m map[string]any
+		json.Unmarshal(e[0], &m)
+		c.Cov["sync_pools_seen"] = m
+	}
 	// S0: DFS across fresh processes
 	c18FirstUse(c, &pool, chk.Pick(c, 1, 2))
 	// free-running race pass
@@ -529,12 +623,25 @@ func c18RacePass(c *chk.Ctx) {
 	}
 	tmp := filepath.Join(c.Pool.TmpDir, "race")
 	os.MkdirAll(tmp, 0o755)
-	cmd := exec.Command(exe, "worker", "c18race", "0", "1", "{}", filepath.Join(tmp, "cur"), filepath.Join(tmp, "hs"), "", "")
+	rp := c18RaceParams{Rounds: chk.Pick(c, 10, 30), CorpusStride: chk.Pick(c, 4, 1)}
+	rpj, _ := json.Marshal(rp)
+	cmd := exec.Command(exe, "worker", "c18race", "0", "1", string(rpj), filepath.Join(tmp, "cur"), filepath.Join(tmp, "hs"), "", "")
 	cmd.Env = append(os.Environ(), "GORACE=halt_on_error=0 exitcode=0", "VERIF_TMP="+tmp, "GOMAXPROCS=8")
 	out, _ := cmd.CombinedOutput()
 	reports := strings.Split(string(out), "WARNING: DATA RACE")
 	c.Count("race_reports", int64(len(reports)-1))
-	c.Cov["race_pass"] = map[string]any{"goroutines": 16, "rounds": 30, "reports": len(reports) - 1}
+	wide := 0
+	for _, l := range strings.Split(string(out), "\n") {
+		if strings.HasPrefix(l, "S ") && strings.Contains(l, "race_wide_projects") {
+			var m struct {
+				Counts map[string]int64 `json:"counts"`
+			}
+			if json.Unmarshal([]byte(l[2:]), &m) == nil {
+				wide = int(m.Counts["race_wide_projects"])
+			}
+		}
+	}
+	c.Cov["race_pass"] = map[string]any{"goroutines": 16, "rounds": rp.Rounds, "reports": len(reports) - 1, "wide_pass_projects": wide, "wide_pass": "every project built and serialised by 4 goroutines walking the list from different offsets, then one catalog per project serialised by 3 goroutines", "corpus_stride": rp.CorpusStride}
 	seen := map[string]bool{}
 	for _, rep := range reports[1:] {
 		// racing function pair: first jsightapi frame of each of the two stacks
